@@ -311,7 +311,7 @@ func checkSTLOrdering(ctx *Ctx, r *Report, writers map[string]*ssa.Function) {
 				if ag, _ := snap.Elems[1].(*Agg); ag != nil && ag.T != nil && strings.HasSuffix(ag.T.String(), "STLHeader") {
 					c, _ := fieldOf(ag, "Count")
 					ct, _ := c.(*Term)
-					okHdr = ct != nil && ct.Key() == Conv("uint32", A("len("+fn.Params[1].Name()+")")).Key()
+					okHdr = ct != nil && ct.Key() == Conv("uint32", A("len("+paramName(fn, 1)+")")).Key()
 					if ct != nil {
 						detail = "Count = " + ct.Key()
 					}
@@ -512,7 +512,7 @@ func normalClosedForm(ctx *Ctx, r *Report, fn *ssa.Function, key string) {
 	res, _ := ev.evalRoot(fn)
 	m := map[string]*Term{}
 	leafTerms("", res, m)
-	t := fn.Params[0].Name()
+	t := paramName(fn, 0)
 	P := func(i int, c string) *Term { return A(fmt.Sprintf("%s[%d].%s", t, i, c)) }
 	e := func(i int, c string) *Term { return Sub(P(i, c), P(0, c)) }
 	cross := map[string]*Term{
